@@ -1154,6 +1154,14 @@ func (e *absEnv) convert(t *ssa.Convert, x aval) aval {
 		b, ok := underlying(sl.Elem()).(*types.Basic)
 		return ok && b.Kind() == types.Uint8
 	}
+	isRunes := func(tt types.Type) bool {
+		sl, ok := underlying(tt).(*types.Slice)
+		if !ok {
+			return false
+		}
+		b, ok := underlying(sl.Elem()).(*types.Basic)
+		return ok && b.Kind() == types.Int32
+	}
 	from, to := t.X.Type(), t.Type()
 	switch {
 	case isIntT(from) && isStrT(to):
@@ -1189,7 +1197,27 @@ func (e *absEnv) convert(t *ssa.Convert, x aval) aval {
 			}
 		}
 		return newVals(vs, types.Typ[types.Uint8])
+	case isRunes(from) && isStrT(to):
+		if _, isNil := x.(anil); isNil {
+			return astr("")
+		}
+		sl, ok := x.(avals)
+		if !ok {
+			return aunk{"string(" + describeAval(x) + ")"}
+		}
+		var rs []rune
+		for _, c := range sl.cells {
+			v, ok := c.f[""].(aint)
+			if !ok {
+				return aunk{"string of runes " + describeAval(c.f[""])}
+			}
+			rs = append(rs, rune(v))
+		}
+		return astr(string(rs))
 	case isBytes(from) && isStrT(to):
+		if _, isNil := x.(anil); isNil {
+			return astr("")
+		}
 		sl, ok := x.(avals)
 		if !ok {
 			return aunk{"string(" + describeAval(x) + ")"}
@@ -1198,7 +1226,7 @@ func (e *absEnv) convert(t *ssa.Convert, x aval) aval {
 		for _, c := range sl.cells {
 			switch v := c.f[""].(type) {
 			case aint:
-				all = append(all, atom{lit: string(rune(v))})
+				all = append(all, atom{lit: string([]byte{byte(v)})})
 			case astrv:
 				all = append(all, v.atoms...)
 			default:
